@@ -16,6 +16,13 @@ def check(run):
         run.floor('CMP.table', 'comparator bodies', nc, 2)
         ncast = N.check_casts(run, F)
         run.floor('CAST', 'Cast impl instances (macro expansions included)', ncast, 480)
+        # casts between date-time units delegate to DateTime::into_unit, casts to optional
+        # integers to into_opt_i64: their NaT handling (owned by C16) is part of the cast algebra
+        import timerules as T
+        for r in ('NAT.guard', 'TBL.unit'):
+            run.rule(r, T.RULES[r])
+        T.check_unit_table(run, F)
+        T.check_conversions(run, F)
     return run.finish(
         'other',
         'Per IsNone impl (16): is_none is one predicate, not_none its negation, to_opt/as_opt '
